@@ -48,15 +48,15 @@ type COp struct {
 
 // C11Plan is one concurrent shim world.
 type C11Plan struct {
-	NoUp     bool           `json:"no_up"`
-	Keys     []worlds.SKey  `json:"keys"`
-	Certs    []worlds.SCert `json:"certs"`
-	Init     []string       `json:"init"`
-	InitMem  []string       `json:"init_mem,omitempty"`
-	Tasks    [][]COp        `json:"tasks"`
+	NoUp    bool           `json:"no_up"`
+	Keys    []worlds.SKey  `json:"keys"`
+	Certs   []worlds.SCert `json:"certs"`
+	Init    []string       `json:"init"`
+	InitMem []string       `json:"init_mem,omitempty"`
+	Tasks   [][]COp        `json:"tasks"`
 	// Wire: every client task talks to the shim through its own connection served by yubiagent.ServeAgent on
 	// its own task (as the agent daemon does), instead of calling the shim directly.
-	Wire     bool           `json:"wire,omitempty"`
+	Wire bool `json:"wire,omitempty"`
 	// Late: which reads of the shim from the underlying agent, made under a deadline the shim armed itself and
 	// finding nothing yet, time out because the agent is slower than that deadline (its reply arrives afterwards).
 	// Code that arms no deadline is not affected.
@@ -290,7 +290,7 @@ func match(got, must, may []string) bool {
 
 func linModel(now int64) porcupine.Model {
 	return porcupine.Model{
-		Init: func() interface{} { return &lstate{} },
+		Init:  func() interface{} { return &lstate{} },
 		Equal: func(a, b interface{}) bool { return a.(*lstate).key == b.(*lstate).key },
 		Step: func(state, input, output interface{}) (bool, interface{}) {
 			m := state.(*lstate).m.Clone()
